@@ -106,6 +106,9 @@ def ensure_facts(force=False, log=True):
     hsh = hashlib.sha256("".join(f"{p}={keys[p]};" for p in sorted(keys)).encode()).hexdigest()[:24]
     fdir = os.path.join(CACHE, "facts", hsh)
     ok = os.path.join(fdir, ".ok")
+    if os.environ.get("VERIF_FORCE_FACTS") == "1" and not os.environ.get("VERIF_FACTS_FORCED_ONCE"):
+        force = True
+        os.environ["VERIF_FACTS_FORCED_ONCE"] = "1"
     if os.path.exists(ok) and not force:
         try:
             os.utime(fdir)  # keep the facts of the tree in use from being pruned as "old"
